@@ -1,5 +1,6 @@
 import Tea.Proofs.Flush
 import Tea.Proofs.Outside
+import Tea.Proofs.EnterAlt
 /-
 Alt-screen flushes on a `Term`: the general one-flush theorem (`alt_flush_term`),
 the renderer/terminal invariant `AltInv`, and its preservation — by every step that stays on
@@ -209,29 +210,47 @@ theorem AltInv.repaint {r : RState} {t : Term} (h : AltInv r t) : AltInv r.repai
     fun _ hls => by simp [RState.repaint] at hls, fun hne => by simp [RState.repaint] at hne,
     h.outside⟩
 
-/-- entering the alt screen establishes the invariant -/
+theorem preAlt_bufOps (r : RState) : ∀ op ∈ (preAlt r).2, isBufOp op = true := by
+  rcases preAlt_cases r with h | h <;> rw [h]
+  · intro op hop; simp at hop
+  · exact flush_bufOps r
+
+/-- what the four switching operations do to a terminal that is on the main screen: the alt screen
+is active and blank, the main buffer is not touched (its cursor is saved) -/
+theorem switchOps_term (t : Term) (hidden : Bool) (hon : t.onAlt = false) :
+    (applyOps t (switchOps hidden)).onAlt = true ∧
+    (applyOps t (switchOps hidden)).w = t.w ∧
+    (applyOps t (switchOps hidden)).h = t.h ∧
+    ∀ ρ c, (applyOps t (switchOps hidden)).alt.cells ρ c = 32 := by
+  cases hidden <;>
+    simp [switchOps, cursorOp, applyOps, apply, setMode, Term.setBuf, Term.buf, hon, applyBuf, cupRow,
+      Buf.eraseRows]
+
+/-- ... and the alt screen's cursor is at home (top left of its window, no pending wrap) -/
+theorem switchOps_alt_home (t : Term) (hidden : Bool) (hon : t.onAlt = false) :
+    (applyOps t (switchOps hidden)).alt.cr = (applyOps t (switchOps hidden)).alt.top ∧
+    (applyOps t (switchOps hidden)).alt.cc = 0 ∧
+    (applyOps t (switchOps hidden)).alt.pw = false := by
+  cases hidden <;>
+    simp [switchOps, cursorOp, applyOps, apply, setMode, Term.setBuf, Term.buf, hon, applyBuf, cupRow,
+      Buf.eraseRows] <;> (repeat' split) <;> omega
+
+/-- entering the alt screen establishes the invariant (whatever is queued: the render that now
+precedes the switch happens on the main screen and changes neither the size nor the screen the
+terminal is on) -/
 theorem enterAlt_inv (r : RState) (t : Term) (ha : r.altActive = false) (hon : t.onAlt = false)
     (hw : r.width = t.w) (hh : r.height = t.h) (hw1 : 1 ≤ t.w) (hh1 : 1 ≤ t.h) :
     AltInv (enterAlt r).1 (applyOps t (enterAlt r).2) := by
-  have hr : (enterAlt r).1 = ({ r with altActive := true, altLinesRendered := 0 } : RState).repaint := by
-    simp [enterAlt, ha]
-  have ho : (enterAlt r).2 = [.decset 1049, .ed2, .home, cursorOp r.cursorHidden] := by
-    simp [enterAlt, ha]
-  rw [hr, ho]
-  have ht : (applyOps t [.decset 1049, .ed2, .home, cursorOp r.cursorHidden]).onAlt = true ∧
-      (applyOps t [.decset 1049, .ed2, .home, cursorOp r.cursorHidden]).w = t.w ∧
-      (applyOps t [.decset 1049, .ed2, .home, cursorOp r.cursorHidden]).h = t.h ∧
-      ∀ ρ c, (applyOps t [.decset 1049, .ed2, .home, cursorOp r.cursorHidden]).alt.cells ρ c = 32 := by
-    cases r.cursorHidden <;>
-      simp [cursorOp, applyOps, apply, setMode, Term.setBuf, Term.buf, hon, applyBuf, cupRow,
-        Buf.eraseRows]
-  obtain ⟨h1, h2, h3, h4⟩ := ht
-  generalize applyOps t [.decset 1049, .ed2, .home, cursorOp r.cursorHidden] = t' at *
-  refine ⟨rfl, h1, by rw [h2]; exact hw, by rw [h3]; exact hh, by omega, by omega, ?_, ?_, ?_,
-    fun ρ c _ => h4 ρ c⟩
+  obtain ⟨f1, f2, f3, f4, _, _, _, _, _, _, f11, f12⟩ := enterAlt_fields r ha
+  obtain ⟨a1, a2, a3, _, _, _⟩ := applyOps_bufOps (preAlt r).2 t (preAlt_bufOps r)
+  rw [enterAlt_ops r ha, applyOps_append]
+  obtain ⟨h1, h2, h3, h4⟩ := switchOps_term (applyOps t (preAlt r).2) r.cursorHidden (by rw [a3, hon])
+  generalize applyOps (applyOps t (preAlt r).2) (switchOps r.cursorHidden) = t' at *
+  refine ⟨f1, h1, by rw [h2, a1, f11]; exact hw, by rw [h3, a2, f12]; exact hh, by omega, by omega,
+    ?_, ?_, ?_, fun ρ c _ => h4 ρ c⟩
   · intro i _ _ c _; exact h4 _ _
-  · intro ls hls; simp [RState.repaint] at hls
-  · intro hne; simp [RState.repaint] at hne
+  · intro ls hls; rw [f4] at hls; cases hls
+  · intro hne; exact absurd f3 hne
 
 /-- mode switches other than 1049 and the title leave the screens alone -/
 theorem apply_mode_alt (t : Term) (n : Nat) (v : Bool) (hn : n ≠ 1049) :
